@@ -493,9 +493,13 @@ def judge_dec(ctx, line, res, nbytes):
     if t > cap:
         ctx.violation("CPU time %.0f us exceeds the cap %.0f us (input %d bytes, declared %dx%d, scan limit %d)" % (t, cap, nbytes, w, h, SCANLIMIT),
                       rep, signature="time:k%s" % k)
-    if k in ("0", "1", "2") and kv.get("hdr") in ("0", "-1") and "sane" in kv and kv["sane"] != "1" and kv.get("hdr") == "0":
+    tables_only = kv.get("w") == "-1" and kv.get("h") == "-1"     # documented: returns 0, parameters unmodified
+    if k in ("0", "1", "2") and kv.get("hdr") == "0" and kv.get("sane") == "0" and not tables_only:
         ctx.violation("tj3DecompressHeader reported success with insane parameters: " + res, rep, signature="insane-header")
-    if "same" in kv and kv["same"] != "1":
+    if "same" in kv and kv["same"] != "1" and kv.get("untouched") == "1" and kv.get("rc", "").startswith("-1"):
+        ctx.violation("a fatal error was reported as TJERR_WARNING (tj3GetErrorCode) although nothing was written to the output: " + res,
+                      rep, signature="fatal-as-warning")
+    elif "same" in kv and kv["same"] != "1":
         ctx.violation("two decodes of the same stream into differently pre-filled buffers disagree (uninitialised or non-deterministic output): " + res,
                       rep, signature="uninit:k%s" % k)
     if k == "3" and kv.get("rc") == "0" and kv.get("reparse") not in ("0",) and kv.get("osz") != "0":
